@@ -293,6 +293,16 @@ theorem bind_gets {σ ρ β γ : Type} (g : σ → β) (k : β → M σ ρ γ) (
     Gen.TrFT.bind (gets g) k o = k (g o) o := by
   simp [Gen.TrFT.bind, gets]
 
+theorem seq_loop_next {σ ρ β γ : Type} {g : σ → List β} {body : β → M σ ρ Unit} {b : M σ ρ γ} {o o' : σ}
+    (h : forEach (g o) body o = (o', .next ())) :
+    Gen.TrFT.seq (Gen.TrFT.bind (gets g) fun v => forEach v body) b o = b o' := by
+  simp [Gen.TrFT.seq, Gen.TrFT.bind, gets, h]
+
+theorem seq_loop_raise {σ ρ β γ : Type} {g : σ → List β} {body : β → M σ ρ Unit} {b : M σ ρ γ} {o o' : σ}
+    {x : PyExc} (h : forEach (g o) body o = (o', .raise x)) :
+    Gen.TrFT.seq (Gen.TrFT.bind (gets g) fun v => forEach v body) b o = (o', .raise x) := by
+  simp [Gen.TrFT.seq, Gen.TrFT.bind, gets, h]
+
 theorem insertNew_eq_sadd (l : List String) (x : String) : insertNew l x = sadd l x := rfl
 
 /-- the body of the translated EVENTS loop does what the model's `addRule` does -/
@@ -525,5 +535,225 @@ theorem namesLoop_spec (p : Prims δ Du κ α ε χ η) (hcn : ∀ n w, p.checkN
   | cons x rest ih =>
     have : buildTablesLoop0 p x o = (o, .next ()) := by unfold buildTablesLoop0; ftsimp [hcn]
     simp only [forEach, this, ih]
+
+/-! `_build_tables` as a whole -/
+
+/-- the class attributes as the model's `Spec`: from-states normalised (`'a | b'` split, names stripped), a
+    TIMERS entry as (state, timed event, is the duration zero) -/
+def specOf (p : Prims δ Du κ α ε χ η) (zero : δ → Bool) (o : Obj δ Du κ α ε χ) (sts : List String) : Spec :=
+  { states := sts, rules := o.EVENTS.map (ruleOf p),
+    timers := o.TIMERS.map fun t => (t.1, timEType t.2.2, zero t.2.1) }
+
+theorem ctStates_specOf (p : Prims δ Du κ α ε χ η) (zero : δ → Bool) (o : Obj δ Du κ α ε χ) (sts : List String) :
+    Fsm.ctStates (specOf p zero o sts) = sunion (sofList sts) (o.TIMERS.map (·.1)) := by
+  unfold Fsm.ctStates specOf sunion sofList
+  simp only [List.map_map, List.foldl_append]
+  rfl
+
+/-- the block after the seven assignments that create the empty tables -/
+def resetObj (o : Obj δ Du κ α ε χ) : Obj δ Du κ α ε χ :=
+  { o with
+    ctStates := sunion (sofList o.STATES.items) (o.TIMERS.map (·.1))
+    ctEvents := []
+    ctTransition := []
+    ctDefaultDuration := []
+    ctTimedEvent := []
+    ctMethods := [("enter", []), ("exit", []), ("cond", [])]
+    ctPrefixes := [("t_", 2, TableRef.defaultDuration), ("cond_", 5, TableRef.events),
+      ("enter_", 6, TableRef.states), ("exit_", 5, TableRef.states), ("on_enter_", 9, TableRef.states),
+      ("on_exit_", 8, TableRef.states)] }
+
+/-- `_ct_default_state`: the first of STATES, else the first key of TIMERS -/
+def defaultState {β : Type} (sts : List String) (timers : List (String × β)) : String :=
+  match sts, timers with
+  | x :: _, _ => x
+  | [], t :: _ => t.1
+  | [], [] => ""
+
+theorem timers_find_iff (zero : δ → Bool) (states evs : List String) (tl : List (String × (δ × TimEv))) :
+    ((tl.map fun t => (t.1, timEType t.2.2, zero t.2.1)).find? (fun t => !timerOk states evs t)).isNone =
+      tl.all (fun t => timEvOk states evs t.2.2) := by
+  induction tl with
+  | nil => rfl
+  | cons t rest ih =>
+    obtain ⟨s, dur, ev⟩ := t
+    have : timerOk states evs (s, timEType ev, zero dur) = timEvOk states evs ev := by
+      cases ev <;> rfl
+    simp only [List.map_cons, List.find?_cons, List.all_cons, this]
+    cases timEvOk states evs ev
+    · simp
+    · simp only [Bool.not_true, Bool.true_and]
+      exact ih
+
+theorem sadd_ne_nil (l : List String) (x : String) : sadd l x ≠ [] := by
+  unfold sadd; split
+  · next h => intro hn; rw [hn] at h; simp at h
+  · simp
+
+theorem foldl_sadd_ne_nil (l acc : List String) (h : acc ≠ [] ∨ l ≠ []) : l.foldl sadd acc ≠ [] := by
+  induction l generalizing acc with
+  | nil => rcases h with h | h; exact h; exact absurd rfl h
+  | cons x rest ih => exact ih _ (.inl (sadd_ne_nil acc x))
+
+theorem buildTables_spec (p : Prims δ Du κ α ε χ η) (zero : δ → Bool) (o : Obj δ Du κ α ε χ)
+    (sts : List String) (hS : o.STATES = .seq sts) (hcn : ∀ n w, p.checkName n w = .ok ())
+    (hh : ∀ r ∈ o.EVENTS, dhas o.ctHandlers r.1 = false)
+    (hper : ∀ t ∈ o.TIMERS, ∃ du, p.timePeriod t.2.1 = .ok du) :
+    match Fsm.buildTables (specOf p zero o sts) with
+    | .error _ => (Gen.TrFT.buildTables p o).2 = .raise "ValueError"
+    | .ok t =>
+      (Gen.TrFT.buildTables p o).2 = .next () ∧
+      (Gen.TrFT.buildTables p o).1.ctStates = t.states ∧
+      (Gen.TrFT.buildTables p o).1.ctEvents = t.events ∧
+      trOf (Gen.TrFT.buildTables p o).1.ctTransition = t.trans ∧
+      (Gen.TrFT.buildTables p o).1.ctChainlimit = t.chainLimit ∧
+      (Gen.TrFT.buildTables p o).1.ctTimedEvent = o.TIMERS.foldl (fun d t => dset d t.1 t.2.2) [] ∧
+      (Gen.TrFT.buildTables p o).1.ctMethods =
+        o.classVars.foldl (collectStep p t.events t.states) [("enter", []), ("exit", []), ("cond", [])] ∧
+      (Gen.TrFT.buildTables p o).1.ctPrefixes = (resetObj o).ctPrefixes := by
+  have hstates := ctStates_specOf p zero o sts
+  unfold Gen.TrFT.buildTables
+  rw [seq_next (by rfl), seq_next (by rfl), seq_next (by rfl), seq_next (by rfl), seq_next (by rfl),
+    seq_next (by rfl), seq_next (o' := resetObj o) (by rfl)]
+  rw [seq_next (o' := resetObj o) (by simp [resetObj, hS, StatesAttr.isStr, Gen.TrFT.skip, Gen.TrFT.pure])]
+  have hSt : (resetObj o).ctStates = Fsm.ctStates (specOf p zero o sts) := by
+    rw [hstates]; simp [resetObj, hS, StatesAttr.items]
+  by_cases hemp : sts = [] ∧ o.TIMERS = []
+  · -- no states at all
+    have h0 : Fsm.ctStates (specOf p zero o sts) = [] := by
+      rw [hstates]; simp [hemp, sofList, sunion]
+    unfold Fsm.buildTables
+    simp only [h0, List.isEmpty_nil, if_true]
+    rw [seq_raise (o' := resetObj o) (x := "ValueError") (by
+      simp [resetObj, hS, hemp, StatesAttr.truthy, Gen.TrFT.seq, Gen.TrFT.bind, Gen.TrFT.raise])]
+  · -- the default initial state
+    generalize hdf : defaultState sts o.TIMERS = dflt
+    rw [seq_next (o' := { resetObj o with ctDefaultState := dflt }) (by
+      subst hdf
+      cases hs : sts with
+      | cons x xs =>
+        simp [resetObj, hS, hs, defaultState, StatesAttr.truthy, StatesAttr.first, StatesAttr.items, Gen.TrFT.seq,
+          Gen.TrFT.bind, Gen.TrFT.liftE, Gen.TrFT.modify, Gen.TrFT.skip, Gen.TrFT.pure]
+      | nil =>
+        cases ht : o.TIMERS with
+        | nil => exact absurd ⟨hs, ht⟩ hemp
+        | cons t ts =>
+          simp [resetObj, hS, hs, ht, defaultState, StatesAttr.truthy, dfirstKey, Gen.TrFT.seq,
+            Gen.TrFT.bind, Gen.TrFT.liftE, Gen.TrFT.modify, Gen.TrFT.skip, Gen.TrFT.pure])]
+    rw [seq_loop_next (o' := { resetObj o with ctDefaultState := dflt }) (namesLoop_spec p hcn _ _)]
+    rw [seq_next (o' := { resetObj o with
+        ctDefaultState := dflt
+        ctChainlimit := (3 * (resetObj o).ctStates.length) }) (by rfl)]
+    generalize hoC : ({ resetObj o with
+        ctDefaultState := dflt
+        ctChainlimit := (3 * (resetObj o).ctStates.length) } : Obj δ Du κ α ε χ) = oC
+    have hC1 : oC.ctStates = Fsm.ctStates (specOf p zero o sts) := by rw [← hoC]; exact hSt
+    have hC2 : oC.ctEvents = [] ∧ oC.ctTransition = [] ∧ oC.EVENTS = o.EVENTS ∧ oC.TIMERS = o.TIMERS ∧
+        oC.classVars = o.classVars ∧ oC.ctHandlers = o.ctHandlers ∧ oC.ctTimedEvent = [] ∧
+        oC.ctMethods = [("enter", []), ("exit", []), ("cond", [])] ∧
+        oC.ctChainlimit = 3 * (Fsm.ctStates (specOf p zero o sts)).length ∧
+        oC.ctPrefixes = (resetObj o).ctPrefixes := by
+      rw [← hoC, ← hSt]; exact ⟨rfl, rfl, rfl, rfl, rfl, rfl, rfl, rfl, rfl, rfl⟩
+    obtain ⟨hCe, hCt, hCE, hCT, hCV, hCH, hCTe, hCM, hCL, hCP⟩ := hC2
+    have hne : (Fsm.ctStates (specOf p zero o sts)).isEmpty = false := by
+      rw [hstates]
+      have : sunion (sofList sts) (o.TIMERS.map (·.1)) ≠ [] := by
+        unfold sunion sofList
+        rw [← List.foldl_append]
+        apply foldl_sadd_ne_nil
+        right
+        intro h
+        simp at h
+        exact hemp h
+      cases h : sunion (sofList sts) (o.TIMERS.map (·.1)) with
+      | nil => exact absurd h this
+      | cons _ _ => rfl
+    -- the EVENTS loop
+    have hev := addRules_spec p (buildTablesLoop1 p) o.EVENTS (buildTablesLoop1_ok p hcn _) oC
+      (by rw [hCH]; exact hh)
+    rw [hC1, hCe, hCt] at hev
+    unfold Fsm.buildTables
+    simp only [hne, Bool.false_eq_true, if_false]
+    have hrules : (specOf p zero o sts).rules = o.EVENTS.map (ruleOf p) := rfl
+    rw [hrules]
+    rcases hfe : forEach o.EVENTS (buildTablesLoop1 p) oC with ⟨oD, fl⟩
+    rw [hfe] at hev
+    have hfe' : forEach ((fun o => o.EVENTS) oC) (buildTablesLoop1 p) oC = (oD, fl) := by
+      simp only [hCE]; exact hfe
+    cases hr : addRules (Fsm.ctStates (specOf p zero o sts)) ([], trOf []) (o.EVENTS.map (ruleOf p)) with
+    | error err =>
+      rw [hr] at hev
+      simp only [Agree] at hev
+      subst hev
+      rw [seq_loop_raise hfe']
+      have : trOf ([] : List ((String × Option String) × Option String)) = [] := rfl
+      rw [this] at hr
+      simp only [hr]
+    | ok acc =>
+      obtain ⟨evs, tr⟩ := acc
+      rw [hr] at hev
+      simp only [Agree] at hev
+      obtain ⟨hfl, hDe, hDt, hDf⟩ := hev
+      subst hfl
+      rw [seq_loop_next hfe']
+      have hnil : trOf ([] : List ((String × Option String) × Option String)) = [] := rfl
+      rw [hnil] at hr
+      simp only [hr]
+      -- what the EVENTS loop left alone
+      have hD : oD.ctStates = oC.ctStates ∧ oD.TIMERS = oC.TIMERS ∧ oD.classVars = oC.classVars ∧
+          oD.ctTimedEvent = oC.ctTimedEvent ∧ oD.ctMethods = oC.ctMethods ∧ oD.ctChainlimit = oC.ctChainlimit ∧
+          oD.ctPrefixes = oC.ctPrefixes := by
+        unfold FrameET at hDf; rw [hDf]; exact ⟨rfl, rfl, rfl, rfl, rfl, rfl, rfl⟩
+      obtain ⟨hDs, hDT, hDV, hDTe, hDM, hDL, hDP⟩ := hD
+      -- the TIMERS loop
+      have htm := timersLoop_spec p o.TIMERS oD hper
+      rw [hDs, hC1, hDe] at htm
+      have hfind := timers_find_iff zero (Fsm.ctStates (specOf p zero o sts)) evs o.TIMERS
+      have htimers : (specOf p zero o sts).timers = o.TIMERS.map fun t => (t.1, timEType t.2.2, zero t.2.1) := rfl
+      rw [htimers]
+      rcases hft : forEach o.TIMERS (buildTablesLoop2 p) oD with ⟨oE, fl2⟩
+      rw [hft] at htm
+      have hft' : forEach ((fun o => o.TIMERS) oD) (buildTablesLoop2 p) oD = (oE, fl2) := by
+        simp only [hDT, hCT]; exact hft
+      cases hall : o.TIMERS.all (fun t => timEvOk (Fsm.ctStates (specOf p zero o sts)) evs t.2.2) with
+      | false =>
+        rw [hall] at htm hfind
+        simp only [Bool.false_eq_true, if_false] at htm
+        subst htm
+        rw [seq_loop_raise hft']
+        cases hf : List.find? (fun t => !timerOk (Fsm.ctStates (specOf p zero o sts)) evs t)
+            (o.TIMERS.map fun t => (t.1, timEType t.2.2, zero t.2.1)) with
+        | none => rw [hf] at hfind; simp at hfind
+        | some t =>
+          obtain ⟨ta, tb, tc⟩ := t
+          cases tb <;> rfl
+      | true =>
+        rw [hall] at htm hfind
+        simp only [if_true] at htm
+        obtain ⟨hfl2, hEf, hEt⟩ := htm
+        subst hfl2
+        rw [seq_loop_next hft']
+        have hE : oE.ctStates = oD.ctStates ∧ oE.ctEvents = oD.ctEvents ∧ oE.ctTransition = oD.ctTransition ∧
+            oE.classVars = oD.classVars ∧ oE.ctMethods = oD.ctMethods ∧ oE.ctChainlimit = oD.ctChainlimit ∧
+            oE.ctPrefixes = oD.ctPrefixes := by
+          unfold FrameDT at hEf; rw [hEf]; exact ⟨rfl, rfl, rfl, rfl, rfl, rfl, rfl⟩
+        obtain ⟨hEs, hEe, hEtr, hEV, hEM, hEL, hEP⟩ := hE
+        have hfv : forEach ((fun o => o.classVars) oE) (buildTablesLoop3 p) oE =
+            ({ oE with ctMethods := oE.classVars.foldl (collectStep p oE.ctEvents oE.ctStates) oE.ctMethods },
+              .next ()) := varsLoop_spec p _ oE
+        rw [seq_loop_next hfv]
+        cases hf : List.find? (fun t => !timerOk (Fsm.ctStates (specOf p zero o sts)) evs t)
+            (o.TIMERS.map fun t => (t.1, timEType t.2.2, zero t.2.1)) with
+        | some t => rw [hf] at hfind; simp at hfind
+        | none =>
+          simp only [Gen.TrFT.skip, Gen.TrFT.pure]
+          refine ⟨trivial, ?_, ?_, ?_, ?_, ?_, ?_, ?_⟩
+          · rw [hEs, hDs, hC1]
+          · rw [hEe, hDe]
+          · rw [hEtr, hDt]
+          · rw [hEL, hDL, hCL]
+          · rw [hEt, hDTe, hCTe]
+          · rw [hEV, hDV, hCV, hEe, hDe, hEs, hDs, hC1, hEM, hDM, hCM]
+          · rw [hEP, hDP, hCP]
 
 end Edzed.TrTie.FT
